@@ -39,7 +39,8 @@ SEARCH_RULE = ('DKW band eps_n = sqrt(ln(2/delta)/(2n)), delta = 1e-9.  Required
                'Statistical part only in the thorough tier / when an obligation is broken; the quick tier runs the '
                'deterministic oracles (exact estimators, param maps, KDE density = kernel estimate - also after the caller '
                'overwrites the training array in place -, supports, 4 moderately U-shaped Beta samples (n = 5000, every dataset '
-               'within 2 eps\'_n), large-offset data (|loc| up to 1.2e8, spread <= 1), FORM of the stored parameters (Python numbers / plain lists, JSON), '
+               'within 2 eps\'_n), sample-size sweep n in {1023, 1024, 1025, 2049, 4097, 5000} with extreme first / last rows (closed-form quantities '
+               'exact at rtol 1e-12), large-offset data (|loc| up to 1.2e8, spread <= 1), FORM of the stored parameters (Python numbers / plain lists, JSON), '
                'several models alive at once, sample_size x bw_method x weights combinations (stored dataset bit-identical to the resample of the requested estimate '
                'under the same numpy global seed), object states (fresh / re-fitted / from_dict / clone give bit-identical parameters), configured candidate instances '
                'reached through Univariate / GaussianMultivariate keep their options, numeric forms of user bounds, '
@@ -936,6 +937,52 @@ def beta_unit_width_oracle(ctx, seed, deep):
     return checked
 
 
+SWEEP_SIZES = [1023, 1024, 1025, 2049, 4097, 5000]
+
+
+def size_sweep_oracle(ctx, seed, deep):
+    """sample-size sweep around block boundaries for every closed-form quantity, an extreme value in the LAST row (and one in
+    the first): Gaussian loc/scale = np.mean/np.std, Uniform loc/scale = min / max - min, the data-derived bounds of
+    TruncatedGaussian = min - EPSILON / max + EPSILON, the KDE dataset = all n rows.  rtol 1e-12 (min/max: exact)."""
+    from copulas.univariate import GaussianKDE, GaussianUnivariate, TruncatedGaussian, UniformUnivariate
+    rs = vc.np_rng(seed, 'C04', 'size-sweep')
+    checked = 0
+    sizes = SWEEP_SIZES + ([3073, 2048, 1026] if deep else [])
+    for n in sizes:
+        sigma = float(np.exp(rs.uniform(-2, 3)))
+        X = rs.normal(rs.uniform(-5, 5) * sigma, sigma, size=n)
+        X[-1] = X.max() + 40 * sigma          # the largest value sits in the last row
+        X[0] = X.min() - 25 * sigma           # the smallest in the first
+        mean, std, lo, hi = float(np.mean(X)), float(np.std(X)), float(np.min(X)), float(np.max(X))
+        ctx.count('sweep.closed-form')
+        found = []
+        m = GaussianUnivariate()
+        m.fit(X.copy())
+        if not (abs(float(m._params['loc']) - mean) <= 1e-12 * max(abs(mean), std) and close(m._params['scale'], std, 1e-12)):
+            found.append(('GaussianUnivariate', {'loc': float(m._params['loc']), 'scale': float(m._params['scale'])},
+                          f'loc = np.mean = {mean!r}, scale = np.std = {std!r}'))
+        m = UniformUnivariate()
+        m.fit(X.copy())
+        if not (float(m._params['loc']) == lo and float(m._params['scale']) == hi - lo):
+            found.append(('UniformUnivariate', vc.jsonable(m._params), f'loc = min = {lo!r}, scale = max - min = {hi - lo!r}'))
+        if n <= 2049 or deep:
+            m = TruncatedGaussian()
+            m.fit(X.copy())
+            if not (same(m.min, lo - EPS32) and same(m.max, hi + EPS32)):
+                found.append(('TruncatedGaussian', {'self.min': float(m.min), 'self.max': float(m.max)},
+                              f'default bounds = min - EPSILON = {lo - EPS32!r}, max + EPSILON = {hi + EPS32!r}'))
+        m = GaussianKDE()
+        m.fit(X.copy())
+        ds = np.ravel(np.asarray(m._params['dataset'], dtype=float))
+        if not (len(ds) == n and np.array_equal(ds, X) and m._model.n == n):
+            found.append(('GaussianKDE', {'stored rows': len(ds), 'model rows': int(m._model.n)}, f'the stored dataset is all {n} training rows'))
+        checked += 4
+        for clsname, obs, req in found:
+            ctx.fail_input(f'{clsname}.fit', {'n': n, 'X': X.tolist()}, obs, f'n = {n}, extreme values in the first and last row: {req}',
+                           f'{clsname}.fit:closed-form-not-exact:size-sweep')
+    return checked
+
+
 def large_offset_oracle(ctx, seed, deep):
     """data with a huge location relative to its spread (|loc| up to 1.2e8, scale <= 1).  Calibrated on the clean tree
     (n = 1000, sqrt(n)*sup|F_fit - F_true|): Gaussian 0.6, Uniform 0.1, KDE 0.8, TruncatedGaussian 0.6 (user and data-derived
@@ -1533,6 +1580,7 @@ def search(ctx, deep, seed=None):
     checked += trunc_bound_forms_oracle(ctx, seed, deep)
     checked += kde_resample_oracle(ctx, seed, deep)
     checked += large_offset_oracle(ctx, seed, deep)
+    checked += size_sweep_oracle(ctx, seed, deep)
     checked += stored_form_oracle(ctx, seed, deep)
     checked += models_alive_oracle(ctx, seed, deep)
     checked += wrapper_route_oracle(ctx, seed, deep)
